@@ -8,6 +8,7 @@ T=$V/.seeded_tmp; mkdir -p $T
 for d in seeded/${1:-*}/; do
   id=$(basename $d); prop=${id%%-*}
   if grep -q '"status": "obsolete-after-fix"' $d/meta.json 2>/dev/null; then echo "$id obsolete-after-fix (skipped)"; continue; fi
+  if grep -q '"status": "outside-reading"' $d/meta.json 2>/dev/null; then echo "$id outside-reading (skipped)"; continue; fi
   git -C $REPO apply $V/$d/patch.diff || { echo "$id PATCH-FAILS"; continue; }
   cp evidence/$prop.json $T/evidence_$prop.bak 2>/dev/null   # the evidence of the unchanged tree must survive this run
   timeout 1800 ./check $prop --tier quick --repo $REPO > $T/seeded_$id.log 2>&1; rc=$?
